@@ -72,6 +72,7 @@ type Cluster struct {
 	nextLedger int
 	data       map[string]*LedgerData // by ledger name
 	locks      map[string]*lockState
+	waitq      map[string][]*Session // FIFO of waiters per key: a released lock goes to the first waiter, as in Postgres
 	sessSeq    int64
 
 	shim *pgshim.Shim
@@ -108,6 +109,7 @@ func NewCluster() *Cluster {
 		sysLedgers: map[string]*vrow[ledger.Ledger]{},
 		data:       map[string]*LedgerData{},
 		locks:      map[string]*lockState{},
+		waitq:      map[string][]*Session{},
 	}
 	c.shim = pgshim.New(c.handleSQL)
 	c.shim.SetRecord(false)
@@ -195,7 +197,7 @@ type Session struct {
 	id  int64
 	c   *Cluster
 	txn *Txn // open top-level transaction, if any
-	waitingFor *Session
+	waitingKey string // lock key this session is waiting for ("" = not waiting)
 	client     int
 }
 
@@ -277,11 +279,15 @@ func pgErr(code, msg, constraint string) *pgconn.PgError {
 func (c *Cluster) tryLockLocked(s *Session, key string, xact bool) (ok bool, holder *Session) {
 	ls := c.locks[key]
 	if ls == nil {
+		if q := c.waitq[key]; len(q) > 0 && q[0] != s {
+			return false, q[0] // free, but promised to the first waiter
+		}
 		ls = &lockState{owner: s}
 		c.locks[key] = ls
 	} else if ls.owner != s {
 		return false, ls.owner
 	}
+	c.dequeueLocked(s, key)
 	if !xact {
 		ls.sess++
 		return true, nil
@@ -302,6 +308,41 @@ func (c *Cluster) tryLockLocked(s *Session, key string, xact bool) (ok bool, hol
 		}})
 	}
 	return true, nil
+}
+
+func (c *Cluster) dequeueLocked(s *Session, key string) {
+	q := c.waitq[key]
+	for i, w := range q {
+		if w == s {
+			q = append(q[:i:i], q[i+1:]...)
+			break
+		}
+	}
+	if len(q) == 0 {
+		delete(c.waitq, key)
+	} else {
+		c.waitq[key] = q
+	}
+}
+
+func (c *Cluster) enqueueLocked(s *Session, key string) {
+	for _, w := range c.waitq[key] {
+		if w == s {
+			return
+		}
+	}
+	c.waitq[key] = append(c.waitq[key], s)
+}
+
+// ownerOrPromisedLocked: who a waiter on key is effectively waiting for.
+func (c *Cluster) ownerOrPromisedLocked(key string, asking *Session) *Session {
+	if ls := c.locks[key]; ls != nil {
+		return ls.owner
+	}
+	if q := c.waitq[key]; len(q) > 0 && q[0] != asking {
+		return q[0]
+	}
+	return nil
 }
 
 func (c *Cluster) maybeFreeLocked(key string, ls *lockState) {
@@ -328,21 +369,27 @@ func (c *Cluster) lock(ctx context.Context, s *Session, key, site string, xact b
 		c.mu.Lock()
 		ok, holder := c.tryLockLocked(s, key, xact)
 		if ok {
-			s.waitingFor = nil
+			s.waitingKey = ""
 			c.mu.Unlock()
 			return nil
 		}
-		// deadlock detection: follow waitingFor chain from holder
-		for h, n := holder, 0; h != nil && n < 1000; h, n = h.waitingFor, n+1 {
+		// deadlock detection on the CURRENT wait-for graph: holder -> owner of the key it waits for -> ...
+		for h, n := holder, 0; h != nil && n < 1000; n++ {
 			if h == s {
 				c.stats.deadlocks++
-				s.waitingFor = nil
+				s.waitingKey = ""
+				c.dequeueLocked(s, key)
 				c.mu.Unlock()
 				c.emit(ctx, s, "deadlock", site, "", key)
 				return pgErr("40P01", "deadlock detected", "")
 			}
+			if h.waitingKey == "" {
+				break
+			}
+			h = c.ownerOrPromisedLocked(h.waitingKey, h)
 		}
-		s.waitingFor = holder
+		s.waitingKey = key
+		c.enqueueLocked(s, key)
 		c.stats.lockWaits++
 		ch := c.changed
 		c.mu.Unlock()
@@ -352,14 +399,19 @@ func (c *Cluster) lock(ctx context.Context, s *Session, key, site string, xact b
 				c.mu.Lock()
 				defer c.mu.Unlock()
 				ls := c.locks[key]
-				return ls == nil || ls.owner == s
+				if ls != nil {
+					return ls.owner == s
+				}
+				q := c.waitq[key]
+				return len(q) == 0 || q[0] == s
 			})
 		} else {
 			select {
 			case <-ch:
 			case <-ctx.Done():
 				c.mu.Lock()
-				s.waitingFor = nil
+				s.waitingKey = ""
+				c.dequeueLocked(s, key)
 				c.mu.Unlock()
 				return ctx.Err()
 			}
@@ -413,7 +465,7 @@ func (c *Cluster) endTxnLocked(s *Session, t *Txn) {
 	}
 	t.done = true
 	s.txn = nil
-	s.waitingFor = nil
+	s.waitingKey = ""
 	c.broadcastLocked()
 }
 
